@@ -164,7 +164,7 @@ def check(prop, tier='quick', repo=None, only=None, quiet=False, write=True):
             results.append(run_obligation(ob, repo, tier, known))
     repo.touched = own_touched
     if not only or (prop + '.X') in only:
-        results.append(run_obligation(exits_obligation(prop, sorted(call_closure(repo, own_touched, depth=2), key=str)), repo, tier, known))
+        results.append(run_obligation(exits_obligation(prop, sorted(call_closure(repo, own_touched, depth=1), key=str)), repo, tier, known))
     if not only or (prop + '.U') in only:
         results.append(run_obligation(defuse_obligation(prop, list(repo.touched)), repo, tier, known))
     st = repo.stats()
